@@ -701,14 +701,21 @@ def _out_of_domain(t):
     return False
 
 
-def same_res(m, i, flag=False, power=False):
+def same_res(m, i, flag=False, power=False, big=False):
     if m[0] == "unm":
         return None
-    if power and ((m[0] == "ok" and _out_of_domain(m[1])) or (i[0] == "ok" and _out_of_domain(i[1]))):
+    if (power or big) and ((m[0] == "ok" and _out_of_domain(m[1])) or (i[0] == "ok" and _out_of_domain(i[1]))):
         return None
     if m[0] != i[0]:
         return False
     if m[0] == "ok":
+        if m[1] != i[1] and power:
+            # a real power is modelled by repeated multiplication: not bit exact when the products are inexact
+            try:
+                if _close(parse_sx(m[1]), parse_sx(i[1]), ulps=64):
+                    return None
+            except Exception:
+                pass
         return m[1] == i[1] and (not flag or i[2] is None or m[2] == i[2])
     return True
 
@@ -740,7 +747,8 @@ def check_corr(chk, rng, tier):
             continue
         m = {x[0]: x[1] for x in out}
         what = None
-        pw = "^" in case["text"] or "*" in case["text"]
+        pw = "^" in case["text"]
+        big = pw or "*" in case["text"]
         # (i) plain data: IR tree, parameters, symbols, source text
         if sx(m["np"]) != sx(rec["np"]):
             what = "ast_to_ir/collect_params/ir_to_source (numpy)"
@@ -758,7 +766,7 @@ def check_corr(chk, rng, tier):
                 chk.count("corr_torch_source_compared")
             if rec["np"][0] == "some":
                 chk.count("corr_compiled")
-                r = same_res(_res_model(m["run"]), _res_impl(rec.get("run")), flag=True, power=pw)
+                r = same_res(_res_model(m["run"]), _res_impl(rec.get("run")), flag=True, power=pw, big=big)
                 if r is None:
                     chk.count("corr_run_unmodelled")
                 elif not r:
@@ -766,7 +774,7 @@ def check_corr(chk, rng, tier):
                 else:
                     chk.count("corr_run_agree")
             if what is None:
-                r = same_res(_res_model(m["interp"]), _res_impl(rec["interp"]), power=pw)
+                r = same_res(_res_model(m["interp"]), _res_impl(rec["interp"]), power=pw, big=big)
                 if r is None:
                     chk.count("corr_interp_unmodelled")
                 elif not r:
@@ -776,7 +784,7 @@ def check_corr(chk, rng, tier):
             if what is None:
                 # the model's site has no compiled sub-nodes: outside D5 a sub-node compiled on its own may
                 # carry a known finding into the interpreter's fallback path, so compare on D5 only
-                r = same_res(_res_model(m["site"]), _res_impl(rec["site"]), power=pw) if m["d5"] == 1 else None
+                r = same_res(_res_model(m["site"]), _res_impl(rec["site"]), power=pw, big=big) if m["d5"] == 1 else None
                 if r is None:
                     chk.count("corr_site_unmodelled")
                 elif not r:
@@ -824,12 +832,12 @@ def _intify(o):
     return o
 
 
-def _close(a, b):
-    """same structure and kinds; reals within 2 units in the last place (libm pow vs NumPy's pow)"""
+def _close(a, b, ulps=2):
+    """same structure and kinds; reals within a few units in the last place (libm pow vs NumPy's pow)"""
     if isinstance(a, list) and isinstance(b, list):
         if len(a) == 2 and len(b) == 2 and a[0] == "r" and b[0] == "r":
-            return abs(a[1] - b[1]) <= 2
-        return len(a) == len(b) and all(_close(x, y) for x, y in zip(a, b))
+            return abs(a[1] - b[1]) <= ulps
+        return len(a) == len(b) and all(_close(x, y, ulps) for x, y in zip(a, b))
     return a == b
 
 
